@@ -55,6 +55,9 @@ CHECKS = {
  "C18": dict(cat="proof", tech=TECH % "GF(2)-affine normal forms (uplink_icao) and z3 (fields)",
       text="uplink_icao is proved to return A for every frame data || parity(data) xor top24(A x G) (all 2^24 addresses, all payloads, both lengths) by comparing affine normal forms generated from the real bit-serial loop; uf/bds/pr/ic/lockout are proved against Annex 10 field positions for every frame; uplink_fields() agrees with them wherever they are not None.",
       ref="DESIGN.md section 5 C18"),
+ "C20": dict(cat="proof", tech=TECH % "z3 over the reals with ground instances of the sqrt / pow / exp / cos axioms; interval branch-and-bound (ISA numerics)",
+      text="The four conversion pairs are proved mutual inverses and every conversion strictly increasing in speed, as real identities over the executed bodies of extra/aero.py (pow, sqrt uninterpreted with instantiated axioms (b^e)^y = b^(ey), sqrt(x)^2 = x, monotonicity); p, rho, T positive and within 0.1 % of the two-layer ICAO atmosphere and continuous at 11 km by interval B&B over [-500 m, 20 km]; distance symmetric (cos even) and bearing in [0,360) by z3. Sea-level equalities, TAS>=EAS / CAS>=EAS, numpy-array arguments and agreement with haversine are only checked bounded.",
+      ref="DESIGN.md section 5 C20", note=NOTE + " A2 floats as reals; A3 rounding model in the interval back end; the listed axiom instances."),
 }
 
 NA = {}
